@@ -131,6 +131,18 @@ class Recorder:
         random.randint, random.sample, random.choice, random.shuffle = self._randint, self._sample, self._choice, self._shuffle
         hmac.new = self._hmac_new
         hashlib.new = self._hashlib_new
+        # the one-shot and the named forms are the same leaves
+        self._orig_hmac_digest = hmac.digest
+        rec = self
+
+        def _digest(key, msg, digest):
+            return rec._hmac_new(key, msg, digest).digest()
+        hmac.digest = _digest
+        self._orig_named = {}
+        for nm in ("sha1", "sha224", "sha256", "sha384", "sha512", "md5"):
+            if hasattr(hashlib, nm):
+                self._orig_named[nm] = getattr(hashlib, nm)
+                setattr(hashlib, nm, (lambda data=b"", _nm=nm, **kw: rec._hashlib_new(_nm, data, **kw)))
         self._wrap_aes()
         return self
 
@@ -143,6 +155,9 @@ class Recorder:
         random.randint, random.sample, random.choice, random.shuffle = self._orig_random
         hmac.new = self._orig_hmac_new
         hashlib.new = self._orig_hashlib_new
+        hmac.digest = self._orig_hmac_digest
+        for nm, f in self._orig_named.items():
+            setattr(hashlib, nm, f)
         self._AES.Encrypt, self._AES.Decrypt = self._orig_enc, self._orig_dec
 
     # ---- driver lines
